@@ -177,6 +177,24 @@ pub fn check_transition<R: RefTarget>(
             return false;
         }
     }
+    // every leaf, in the sampler's own scalar arithmetic (the recorded values are exact images of
+    // its scalars): admissible iff slice level < joint, still going iff slice level - 1000 < joint
+    for (li, (joint, n, s)) in t.leaves.iter().enumerate() {
+        let (want_n, want_s) = if teps > 1e-10 {
+            let (lu, j) = (t.logu as f32, *joint as f32);
+            (lu < j, lu - 1000.0f32 < j)
+        } else {
+            (t.logu < *joint, t.logu - 1000.0 < *joint)
+        };
+        if t.logu == *joint {
+            rep.count("leaves_exactly_on_the_slice_level");
+        }
+        if (*n == 1) != want_n || *n > 1 || *s != want_s {
+            rep.violation(&format!("{sig} leaf-admission-or-divergence-flag-differs-from-the-slice-rule"), mon, case,
+                tj(json!({"leaf": li, "joint": fj(*joint), "n_recorded": n, "s_recorded": s, "slice_level_below_joint": want_n, "slice_level_minus_1000_below_joint": want_s})));
+            return false;
+        }
+    }
     if !(t.epsilon > 0.0) || !t.epsilon.is_finite() {
         rep.inconclusive("step size not positive/finite (C04's business)");
         return true;
@@ -742,6 +760,12 @@ where
             if beps < 1e-10 && T::NAME == "f64" && g.chance(0.4) {
                 let c = g.log_uniform(1e2, 1e8) * if g.bool() { 1.0 } else { -1.0 };
                 rep.count("targets_with_additive_constant");
+                go!(Shifted { inner: t, c }, 1.0)
+            } else if T::NAME == "f32" && g.chance(0.3) {
+                // single-precision scalars with a constant so large that the Exp(1) slice draw is
+                // lost to rounding: leaves land exactly on the slice level
+                let c = g.log_uniform(2e7, 2e9) * if g.bool() { 1.0 } else { -1.0 };
+                rep.count("targets_with_additive_constant_f32_scalar");
                 go!(Shifted { inner: t, c }, 1.0)
             } else {
                 go!(t, 1.0)
